@@ -520,7 +520,7 @@ def run(ck):
             what = "%s on (%s) answers '%s'; the property demands '%s'" % (
                 SITE[op], ", ".join(str(x) for x in rep["arguments"]), a, want_s)
             if a == "timeout":
-                what = "%s on (%s) does not return within %d ms (watchdog); it must be rejected or answered" % (
+                what = "%s on (%s) does not return within %d ms of CPU time (watchdog); it must be rejected or answered" % (
                     SITE[op], ", ".join(str(x) for x in rep["arguments"]), BUDGET_MS)
             ck.violation(key, what, rep, True)
         else:
